@@ -1,80 +1,314 @@
-(** C19, s1.Interval.Expanded by a non-negative margin keeps every point.
-    FINDING: the full-strength statement is FALSE of the code as it is ([s1_expanded_refuted]):
-    the guard  Length + 2*margin + 2*dblEpsilon >= 2*pi  adds 4.4e-16 to a value whose
-    ulp is 8.9e-16, so when the computed sum is one ulp below 2*pi the function does not
-    return the full circle, the two wrapped endpoints coincide and the result is a single
-    point.  What is proved instead: the logical skeleton, for inputs whose guard value is at
-    least two ulps below 2*pi ([exp_clear_of_guard]).
-    The numeric step (the two wrapped endpoints fl(lo-m) rem 2pi, fl(hi+m) rem 2pi enclose the
-    original arc whenever the 2*dblEpsilon guard did not already return the full circle) is the
-    named hypothesis [H_S1EXPAND], a statement about float expressions and reals only; the
-    theorem adds the code's case analysis: empty, full, the two normalisations of -pi in
-    IntervalFromEndpoints and the final Lo <= -pi fix. *)
-From Coq Require Import ZArith Reals Floats Lra Bool List.
-From Geo Require Import Base.GoPrim Base.F64 Gen.S1 Proofs.C19_S1.
+(** C19, s1.Interval.Expanded by a non-negative margin keeps every point (part 2).
+    History: the guard  Length + 2*margin + 2*dblEpsilon >= 2*pi  of the original code added half
+    an ulp of 2*pi and missed by one ulp ([s1_expanded_old_refuted]); /repo commit 44b3e8d
+    enlarged it to 16*dblEpsilon.  With that guard the rounding analysis closes: this file proves
+    the statement from the single named hypothesis [H_REMAINDER] (math.Remainder(x, 2*pi) is
+    exact), for every valid interval and every non-NaN margin >= 0 (including +Inf) ...
+    FINDING (still present): ... except that Length() returns -1 for the valid, non-empty
+    interval {pi, succ(-pi)} (its true length 2^-51 vanishes when 2*pi is added), so the guard
+    does not fire for margins in [pi, pi+1/2) and the result loses every point
+    ([s1_expanded_keeps_everything_refuted]); the theorems therefore carry [len_ok]:
+    Length() >= 0 or margin <= 3. *)
+From Coq Require Import ZArith Reals Floats Lra Lia Bool List Psatz.
+From Flocq Require Import Core.Core IEEE754.BinarySingleNaN IEEE754.PrimFloat.
+From Geo Require Import Base.GoPrim Base.F64 Base.F64Arith Gen.S1 Proofs.C19_S1.
+From Geo Require Proofs.C19_Arith.
+From Geo Require Import Proofs.C19_S1_ExpArc.
 Local Open Scope R_scope.
 
 Definition TWOPI : PrimFloat.float := (0x1.921fb54442d18p+02)%float.
+Definition C16 : PrimFloat.float := (0x1.ffffffff081a2p-49)%float.
+Lemma C16_is : PrimFloat.mul (0x1p+04)%float s1_dblEpsilon = C16. Proof. reflexivity. Qed.
+
+Definition qpi : R := 7074237752028440 / 2251799813685248.
+Lemma rpi_val : rpi = qpi.
+Proof. unfold rpi, qpi. rewrite (rank_fin PI (lit_fin PI false 7074237752028440%positive (-51)%Z eq_refl)). lit_value. Qed.
+Lemma twopi_val : RV TWOPI = 2 * qpi.
+Proof. unfold qpi. lit_value. Qed.
+Lemma c16_val : RV C16 = 9007199253725602 / 2535301200456458802993406410752.
+Proof. lit_value. Qed.
+Lemma u51_val : u51 = / 2251799813685248.
+Proof. unfold u51, bpow. simpl. reflexivity. Qed.
+Lemma two_val : RV 2%float = 2. Proof. lit_value. Qed.
+
+Lemma ok8 : okbound 8. Proof. apply (okbound_IZR 8). lia. Qed.
+
+Lemma sub8 x y : fin x -> fin y -> Rabs (RV x - RV y) < 8 ->
+  fin (PrimFloat.sub x y) /\ RV (PrimFloat.sub x y) = rnd (RV x - RV y) /\
+  Rabs (RV (PrimFloat.sub x y) - (RV x - RV y)) <= u51.
+Proof.
+  intros Fx Fy H.
+  destruct (sub_fin x y Fx Fy (below_top _ 8 ok8 (Rlt_le _ _ H))) as [F E].
+  split; [exact F|]. split; [exact E|]. rewrite E. apply err8. exact H.
+Qed.
+Lemma add8 x y : fin x -> fin y -> Rabs (RV x + RV y) < 8 ->
+  fin (PrimFloat.add x y) /\ RV (PrimFloat.add x y) = rnd (RV x + RV y) /\
+  Rabs (RV (PrimFloat.add x y) - (RV x + RV y)) <= u51.
+Proof.
+  intros Fx Fy H.
+  destruct (add_fin x y Fx Fy (below_top _ 8 ok8 (Rlt_le _ _ H))) as [F E].
+  split; [exact F|]. split; [exact E|]. rewrite E. apply err8. exact H.
+Qed.
+
+(** comparisons of finite floats on values *)
+Lemma leb_RV x y : fin x -> fin y -> (PrimFloat.leb x y = true <-> RV x <= RV y).
+Proof.
+  intros Fx Fy. rewrite (leb_true_iff x y (fin_nonnan x Fx) (fin_nonnan y Fy)).
+  rewrite (rank_fin x Fx), (rank_fin y Fy). tauto.
+Qed.
+Lemma leb_RV_false x y : fin x -> fin y -> (PrimFloat.leb x y = false <-> RV y < RV x).
+Proof.
+  intros Fx Fy. rewrite (leb_false_iff x y (fin_nonnan x Fx) (fin_nonnan y Fy)).
+  rewrite (rank_fin x Fx), (rank_fin y Fy). tauto.
+Qed.
+Lemma ltb_RV x y : fin x -> fin y -> (PrimFloat.ltb x y = true <-> RV x < RV y).
+Proof.
+  intros Fx Fy. rewrite (ltb_true_iff x y (fin_nonnan x Fx) (fin_nonnan y Fy)).
+  rewrite (rank_fin x Fx), (rank_fin y Fy). tauto.
+Qed.
+Lemma ltb_RV_false x y : fin x -> fin y -> (PrimFloat.ltb x y = false <-> RV y <= RV x).
+Proof.
+  intros Fx Fy. rewrite (ltb_false_iff x y (fin_nonnan x Fx) (fin_nonnan y Fy)).
+  rewrite (rank_fin x Fx), (rank_fin y Fy). tauto.
+Qed.
+
+Lemma vpt_fin p : vpt p -> fin p /\ - qpi <= RV p <= qpi.
+Proof.
+  intros [N R]. unfold inrange in R. pose proof rpi_lt_top. pose proof rpi_pos.
+  assert (F : fin p) by (apply C19_Arith.rank_fin; [exact N|lra]).
+  split; [exact F|]. rewrite <- (rank_fin p F), <- rpi_val. exact R.
+Qed.
+
+Lemma abs_lt a b : - b < a < b -> Rabs a < b.
+Proof. intros. apply Rabs_def1; lra. Qed.
+Lemma abs_le_inv a b : Rabs a <= b -> - b <= a <= b.
+Proof. intros H. apply Rabs_le_inv. exact H. Qed.
+
+Definition mone : PrimFloat.float := (-0x1p+00)%float.
+Lemma mone_val : RV mone = -1. Proof. unfold mone. lit_value. Qed.
+
+(** what Length computes, against the true arc length *)
+Lemma length_spec lo hi : fin lo -> fin hi -> - qpi <= RV lo <= qpi -> - qpi <= RV hi <= qpi ->
+  let L := s1_Interval_Length (mk_s1_Interval lo hi) in
+  fin L /\ -1 <= RV L < 8 /\
+  (RV lo <= RV hi -> Rabs (RV L - (RV hi - RV lo)) <= u51) /\
+  (RV hi < RV lo ->
+     (0 <= RV L -> Rabs (RV L - (RV hi - RV lo + 2 * qpi)) <= 2 * u51) /\
+     (RV L < 0 -> RV hi - RV lo + 2 * qpi <= 2 * u51)).
+Proof.
+  intros Flo Fhi Rlo Rhi. unfold s1_Interval_Length. cbn [s1_Interval_Lo s1_Interval_Hi].
+  fold TWOPI. fold mone.
+  assert (Q : qpi = 7074237752028440 / 2251799813685248) by reflexivity.
+  pose proof u51_val as U.
+  destruct (sub8 hi lo Fhi Flo ltac:(apply abs_lt; lra)) as [F0 [E0 D0]].
+  set (d0 := PrimFloat.sub hi lo) in *.
+  apply abs_le_inv in D0.
+  destruct (PrimFloat.leb 0%float d0) eqn:C0.
+  - apply (leb_RV _ _ zero_fin F0) in C0. rewrite zero_RV in C0.
+    split; [exact F0|]. split; [lra|]. split.
+    + intros _. apply Rabs_le. lra.
+    + intros Hinv. exfalso.
+      pose proof (rnd_sub_neg (RV hi) (RV lo) (repr_RV hi) (repr_RV lo) Hinv). lra.
+  - apply (leb_RV_false _ _ zero_fin F0) in C0. rewrite zero_RV in C0.
+    assert (Hinv : RV hi < RV lo).
+    { destruct (Rlt_le_dec (RV hi) (RV lo)); [assumption|exfalso].
+      assert (0 <= rnd (RV hi - RV lo)) by (rewrite <- rnd_0; apply rnd_le; lra). lra. }
+    pose proof twopi_val as TV.
+    destruct (add8 d0 TWOPI F0 (lit_fin TWOPI false 7074237752028440%positive (-50)%Z eq_refl)
+                ltac:(apply abs_lt; lra)) as [F1 [E1 D1]].
+    set (d1 := PrimFloat.add d0 TWOPI) in *. apply abs_le_inv in D1.
+    destruct (PrimFloat.ltb 0%float d1) eqn:C1.
+    + apply (ltb_RV _ _ zero_fin F1) in C1. rewrite zero_RV in C1.
+      split; [exact F1|]. split; [lra|]. split; [intros; lra|].
+      intros _. split; [intros _; apply Rabs_le; lra|intros; lra].
+    + apply (ltb_RV_false _ _ zero_fin F1) in C1. rewrite zero_RV in C1.
+      assert (Fm : fin mone) by (apply (lit_fin mone true 4503599627370496%positive (-52)%Z); reflexivity).
+      rewrite mone_val.
+      split; [exact Fm|]. split; [lra|]. split; [intros; lra|].
+      intros _. split; [intros; lra|intros _; lra].
+Qed.
+
+(** * The numeric core of Expanded *)
 Definition exp_lo (lo m : PrimFloat.float) := go_remainder (PrimFloat.sub lo m) TWOPI.
 Definition exp_hi (hi m : PrimFloat.float) := go_remainder (PrimFloat.add hi m) TWOPI.
 Definition exp_full_guard (lo hi m : PrimFloat.float) : bool :=
   PrimFloat.leb TWOPI
     (PrimFloat.add (PrimFloat.add (s1_Interval_Length (mk_s1_Interval lo hi)) (PrimFloat.mul 2%float m))
-                   (PrimFloat.mul 2%float s1_dblEpsilon)).
-(** the value the guard compares with 2*pi, and "at least two ulps below 2*pi" *)
-Definition exp_guard_value (lo hi m : PrimFloat.float) : PrimFloat.float :=
-  PrimFloat.add (PrimFloat.add (s1_Interval_Length (mk_s1_Interval lo hi)) (PrimFloat.mul 2%float m))
-                (PrimFloat.mul 2%float s1_dblEpsilon).
-Definition TWOPI_M2 : PrimFloat.float := (0x1.921fb54442d16p+02)%float.
-Definition exp_clear_of_guard (lo hi m : PrimFloat.float) : Prop :=
-  PrimFloat.leb (exp_guard_value lo hi m) TWOPI_M2 = true.
-(** the upper endpoint after the code's normalisation, on ranks *)
-Definition norm_hi (l h : R) : R := if Req_EM_T h (- rpi) then (if Req_EM_T l rpi then h else rpi) else h.
+                   (PrimFloat.mul (0x1p+04)%float s1_dblEpsilon)).
+(** Length() is negative for exactly one valid non-empty interval, {pi, succ(-pi)} (its true
+    length 2^-51 is lost when adding 2*pi); the margin must then stay below pi *)
+Definition len_ok (lo hi m : PrimFloat.float) : Prop :=
+  PrimFloat.leb 0%float (s1_Interval_Length (mk_s1_Interval lo hi)) = true \/ rank m <= 3.
 
-Definition H_S1EXPAND : Prop :=
-  forall lo hi m, valid_s1 (mk_s1_Interval lo hi) ->
-    s1_Interval_IsEmpty (mk_s1_Interval lo hi) = false ->
-    nonnan m -> 0 <= rank m -> exp_clear_of_guard lo hi m ->
-    vpt (exp_lo lo m) /\ vpt (exp_hi hi m) /\
-    forall y, - rpi < y <= rpi -> memR (rank lo) (rank hi) y ->
-      memR (normR (rank (exp_lo lo m))) (norm_hi (rank (exp_lo lo m)) (rank (exp_hi hi m))) y.
+(** math.Remainder(x, 2*pi) is exact: x minus an integer multiple of 2*pi, in [-pi,pi], and the
+    identity on [-pi,pi] *)
+Definition H_REMAINDER : Prop := forall x, fin x ->
+  let r := go_remainder x TWOPI in
+  fin r /\ - qpi <= RV r <= qpi /\ (exists k : Z, RV r = RV x - IZR k * (2 * qpi)) /\
+  (- qpi <= RV x <= qpi -> RV r = RV x).
 
-Lemma clear_guard_false lo hi m : exp_clear_of_guard lo hi m -> exp_full_guard lo hi m = false.
+Lemma twopi_fin : fin TWOPI.
+Proof. apply (lit_fin TWOPI false 7074237752028440%positive (-50)%Z). reflexivity. Qed.
+Lemma c16_fin : fin C16.
+Proof. apply (lit_fin C16 false 9007199253725602%positive (-101)%Z). reflexivity. Qed.
+Lemma two_fin : fin 2%float.
+Proof. apply (lit_fin 2%float false 4503599627370496%positive (-51)%Z). reflexivity. Qed.
+
+Lemma guard_fires_big lo hi m : fin lo -> fin hi -> - qpi <= RV lo <= qpi -> - qpi <= RV hi <= qpi ->
+  nonnan m -> 4 <= rank m -> exp_full_guard lo hi m = true.
 Proof.
-  unfold exp_clear_of_guard, exp_full_guard. fold (exp_guard_value lo hi m). intros C.
-  destruct (go_isnan (exp_guard_value lo hi m)) eqn:N.
-  { rewrite (leb_nan_l _ _ N) in C. discriminate. }
-  apply leb_true_iff in C; [|exact N|reflexivity].
-  apply leb_false_iff; [reflexivity|exact N|].
-  assert (Q : PrimFloat.ltb TWOPI_M2 TWOPI = true) by reflexivity.
-  apply ltb_true_iff in Q; try reflexivity. lra.
+  intros Flo Fhi Rlo Rhi Nm Hm. unfold exp_full_guard. rewrite C16_is.
+  destruct (length_spec lo hi Flo Fhi Rlo Rhi) as [FL [BL _]].
+  set (L := s1_Interval_Length (mk_s1_Interval lo hi)) in *.
+  destruct (C19_Arith.mul2_ge8 m Nm Hm) as [N2 H2].
+  destruct (C19_Arith.add_ge7 L _ FL ltac:(rewrite (rank_fin L FL); lra) N2 H2) as [N1 H1].
+  pose proof (C19_Arith.nonnan_add_fin _ C16 N1 c16_fin ltac:(lra)) as Ng.
+  assert (Hc : 0 <= rank C16) by (rewrite (rank_fin C16 c16_fin), c16_val; lra).
+  pose proof (C19_Arith.rank_add_ge _ C16 N1 (fin_nonnan _ c16_fin) Hc Ng) as Hg.
+  apply leb_true_iff; [apply fin_nonnan; exact twopi_fin|exact Ng|].
+  rewrite (rank_fin TWOPI twopi_fin), twopi_val. unfold qpi. lra.
 Qed.
-(** outside the one-ulp danger zone: the guard fires, or it is at least two ulps away *)
-Definition exp_safe (i : s1_Interval) (m : PrimFloat.float) : Prop :=
-  s1_Interval_IsEmpty i = true \/
-  exp_full_guard (s1_Interval_Lo i) (s1_Interval_Hi i) m = true \/
-  exp_clear_of_guard (s1_Interval_Lo i) (s1_Interval_Hi i) m.
 
+Lemma ok32 : okbound 32. Proof. apply (okbound_IZR 32). lia. Qed.
+
+Lemma k_zero (k : Z) (x y : R) : y = x - IZR k * (2 * qpi) -> y = x -> k = 0%Z.
+Proof.
+  intros H1 H2. assert (Z1 : IZR k * (2 * qpi) = 0) by lra.
+  apply Rmult_integral in Z1. destruct Z1 as [Z0|Z0]; [apply eq_IZR in Z0; exact Z0|].
+  exfalso. unfold qpi in Z0. lra.
+Qed.
+
+Section Num.
+Hypothesis HR : H_REMAINDER.
+
+Lemma expand_numeric lo hi m : valid_s1 (mk_s1_Interval lo hi) ->
+  s1_Interval_IsEmpty (mk_s1_Interval lo hi) = false ->
+  nonnan m -> 0 <= rank m -> exp_full_guard lo hi m = false -> len_ok lo hi m ->
+  vpt (exp_lo lo m) /\ vpt (exp_hi hi m) /\
+  forall y, - rpi < y <= rpi -> memR (rank lo) (rank hi) y ->
+    memR (normR (rank (exp_lo lo m))) (norm_hi (rank (exp_lo lo m)) (rank (exp_hi hi m))) y.
+Proof.
+  intros V E Nm Hm G LK.
+  destruct V as [Vlo [Vhi [V1 V2]]]. cbn [s1_Interval_Lo s1_Interval_Hi] in *.
+  destruct (vpt_fin lo Vlo) as [Flo Rlo]. destruct (vpt_fin hi Vhi) as [Fhi Rhi].
+  rewrite (rank_fin lo Flo), (rank_fin hi Fhi) in *.
+  assert (Ne : ~ (RV lo = rpi /\ RV hi = - rpi)).
+  { unfold s1_Interval_IsEmpty in E. cbn [s1_Interval_Lo s1_Interval_Hi] in E. pi_consts.
+    intros [A B]. apply andb_false_iff in E. destruct E as [E|E];
+    apply eqb_false_iff in E; try (apply fin_nonnan; assumption); try reflexivity;
+    rewrite ?rank_NPI in E; fold rpi in E; rewrite ?(rank_fin lo Flo), ?(rank_fin hi Fhi) in E; lra. }
+  (* large margins make the guard fire *)
+  destruct (Rle_lt_dec 4 (rank m)) as [Big|Small].
+  { rewrite (guard_fires_big lo hi m Flo Fhi Rlo Rhi Nm Big) in G. discriminate. }
+  pose proof top_pos as Tp.
+  assert (T4 : 4 < top) by (unfold top; change 4 with (bpow radix2 2); apply bpow_lt; reflexivity).
+  assert (Fm : fin m) by (apply C19_Arith.rank_fin; [exact Nm|lra]).
+  rewrite (rank_fin m Fm) in *.
+  pose proof rpi_val as RP. pose proof u51_val as U. pose proof c16_val as CV. pose proof twopi_val as TV.
+  assert (Q : qpi = 7074237752028440 / 2251799813685248) by reflexivity.
+  destruct (length_spec lo hi Flo Fhi Rlo Rhi) as [FL [BL [Ln Li]]].
+  unfold exp_full_guard in G. unfold len_ok in LK. rewrite C16_is in G.
+  set (L := s1_Interval_Length (mk_s1_Interval lo hi)) in *.
+  (* 2*m *)
+  assert (A2 : Rabs (RV 2%float * RV m) <= 8) by (rewrite two_val; apply Rabs_le; lra).
+  destruct (mul_fin 2%float m two_fin Fm (below_top _ 8 ok8 A2)) as [F2 E2].
+  rewrite two_val in E2.
+  assert (A3 : Rabs (2 * RV m) < 8) by (apply abs_lt; lra).
+  pose proof (err8 (2 * RV m) A3) as D2. rewrite <- E2 in D2. apply abs_le_inv in D2.
+  set (M2 := PrimFloat.mul 2%float m) in *.
+  (* L + 2m, + 16 eps *)
+  assert (A1 : Rabs (RV L + RV M2) <= 32) by (apply Rabs_le; lra).
+  destruct (add_fin L M2 FL F2 (below_top _ 32 ok32 A1)) as [F1 E1].
+  set (g1 := PrimFloat.add L M2) in *.
+  assert (B1 : -2 <= RV g1 <= 32).
+  { rewrite E1. split.
+    - rewrite <- (rnd_repr (-2)) by (apply (repr_IZR (-2)); simpl; lia). apply rnd_le. lra.
+    - rewrite <- (rnd_repr 32) by (apply (repr_IZR 32); simpl; lia). apply rnd_le. lra. }
+  assert (Ag : Rabs (RV g1 + RV C16) <= 64) by (apply Rabs_le; lra).
+  destruct (add_fin g1 C16 F1 c16_fin (below_top _ 64 (okbound_IZR 64 ltac:(lia)) Ag)) as [Fg Eg].
+  set (g2 := PrimFloat.add g1 C16) in *.
+  apply (leb_RV_false _ _ twopi_fin Fg) in G.
+  assert (S1 : RV g1 + RV C16 < 2 * qpi).
+  { destruct (Rlt_le_dec (RV g1 + RV C16) (2 * qpi)) as [|Ge]; [assumption|exfalso].
+    assert (RV TWOPI <= RV g2).
+    { rewrite Eg. rewrite <- (rnd_repr (RV TWOPI)) by apply repr_RV. apply rnd_le. lra. }
+    lra. }
+  assert (S0 : RV L + RV M2 < 8).
+  { destruct (Rlt_le_dec (RV L + RV M2) 8) as [|Ge]; [assumption|exfalso].
+    assert (8 <= RV g1).
+    { rewrite E1. rewrite <- (rnd_repr 8) by (apply (repr_IZR 8); simpl; lia). apply rnd_le. lra. }
+    lra. }
+  assert (A4 : Rabs (RV L + RV M2) < 8) by (apply abs_lt; lra).
+  pose proof (err8 (RV L + RV M2) A4) as D1. rewrite <- E1 in D1. apply abs_le_inv in D1.
+  (* the two new endpoints before wrapping *)
+  assert (A5 : Rabs (RV lo - RV m) < 8) by (apply abs_lt; lra).
+  assert (A6 : Rabs (RV hi + RV m) < 8) by (apply abs_lt; lra).
+  destruct (sub8 lo m Flo Fm A5) as [Fa [Ea Da]]. apply abs_le_inv in Da.
+  destruct (add8 hi m Fhi Fm A6) as [Fb [Eb Db]]. apply abs_le_inv in Db.
+  assert (Ale : RV (PrimFloat.sub lo m) <= RV lo).
+  { rewrite Ea. rewrite <- (rnd_repr (RV lo)) at 2 by apply repr_RV. apply rnd_le. lra. }
+  assert (Bge : RV hi <= RV (PrimFloat.add hi m)).
+  { rewrite Eb. rewrite <- (rnd_repr (RV hi)) at 1 by apply repr_RV. apply rnd_le. lra. }
+  set (a := PrimFloat.sub lo m) in *. set (b := PrimFloat.add hi m) in *.
+  destruct (HR a Fa) as [Fl [Rl [[k Kl] Il]]]. destruct (HR b Fb) as [Fh [Rh [[j Kh] Ih]]].
+  change (go_remainder a TWOPI) with (exp_lo lo m) in *. change (go_remainder b TWOPI) with (exp_hi hi m) in *.
+  set (l := exp_lo lo m) in *. set (h := exp_hi hi m) in *.
+  split; [split; [apply fin_nonnan; exact Fl|unfold inrange; rewrite (rank_fin l Fl); lra]|].
+  split; [split; [apply fin_nonnan; exact Fh|unfold inrange; rewrite (rank_fin h Fh); lra]|].
+  rewrite (rank_fin l Fl), (rank_fin h Fh).
+  (* the anomalous Length = -1 *)
+  assert (LK' : 0 <= RV L \/ RV m <= 3).
+  { destruct LK as [LK|LK]; [left|right; rewrite (rank_fin m Fm) in LK; exact LK].
+    apply (leb_RV _ _ zero_fin FL) in LK. rewrite zero_RV in LK. exact LK. }
+  assert (P1 : - rpi <= RV lo <= rpi) by (clear - Rlo RP; lra).
+  assert (P2 : - rpi <= RV hi <= rpi) by (clear - Rhi RP; lra).
+  assert (Dn : RV lo <= RV hi -> RV b - RV a < 2 * rpi).
+  { intros O. specialize (Ln O). apply abs_le_inv in Ln. lra. }
+  assert (Di : RV hi < RV lo -> RV b < RV a).
+  { intros O. destruct (Li O) as [Li1 Li2].
+    destruct (Rle_lt_dec 0 (RV L)) as [P0|N0].
+    - specialize (Li1 P0). apply abs_le_inv in Li1. lra.
+    - specialize (Li2 N0). destruct LK' as [?|M3]; lra. }
+  assert (El : RV l = RV a - IZR k * (2 * rpi)) by (rewrite RP; exact Kl).
+  assert (Eh : RV h = RV b - IZR j * (2 * rpi)) by (rewrite RP; exact Kh).
+  assert (Rl' : - rpi <= RV l <= rpi) by (clear - Rl RP; lra).
+  assert (Rh' : - rpi <= RV h <= rpi) by (clear - Rh RP; lra).
+  assert (Ka : - rpi <= RV a <= rpi -> k = 0%Z)
+    by (intros Ia; rewrite RP in Ia; exact (k_zero k _ _ Kl (Il Ia))).
+  assert (Kb : - rpi <= RV b <= rpi -> j = 0%Z)
+    by (intros Ib; rewrite RP in Ib; exact (k_zero j _ _ Kh (Ih Ib))).
+  exact (arc_cover (RV lo) (RV hi) (RV a) (RV b) (RV l) (RV h) k j P1 P2 V1 V2 Ne Ale Bge Dn Di El Eh Rl' Rh' Ka Kb).
+Qed.
+End Num.
+
+(** * The code's case analysis around the numeric core *)
 Section UnderH.
-Hypothesis H : H_S1EXPAND.
+Hypothesis HR : H_REMAINDER.
+
+Lemma leb0_m m : nonnan m -> 0 <= rank m -> PrimFloat.leb 0%float m = true.
+Proof. intros Nm Hm. apply leb_true_iff; [reflexivity|exact Nm|]. rewrite rank_zero. exact Hm. Qed.
+
+Lemma expanded_unfold lo hi m : nonnan m -> 0 <= rank m ->
+  s1_Interval_IsEmpty (mk_s1_Interval lo hi) = false -> exp_full_guard lo hi m = false ->
+  s1_Interval_Expanded (mk_s1_Interval lo hi) m =
+  (let r := s1_IntervalFromEndpoints (exp_lo lo m) (exp_hi hi m) in
+   if PrimFloat.leb (s1_Interval_Lo r) NPI then set_s1_Interval_Lo r PI else r).
+Proof.
+  intros Nm Hm E G. unfold s1_Interval_Expanded. rewrite (leb0_m m Nm Hm), E.
+  unfold exp_full_guard in G. fold TWOPI. rewrite G. reflexivity.
+Qed.
 
 Lemma expanded_result lo hi m : valid_s1 (mk_s1_Interval lo hi) ->
   s1_Interval_IsEmpty (mk_s1_Interval lo hi) = false -> nonnan m -> 0 <= rank m ->
-  exp_clear_of_guard lo hi m ->
+  exp_full_guard lo hi m = false -> len_ok lo hi m ->
   let r := s1_Interval_Expanded (mk_s1_Interval lo hi) m in
   vpt (s1_Interval_Lo r) /\ vpt (s1_Interval_Hi r) /\
   rank (s1_Interval_Lo r) = normR (rank (exp_lo lo m)) /\
   rank (s1_Interval_Hi r) = norm_hi (rank (exp_lo lo m)) (rank (exp_hi hi m)).
 Proof.
-  intros V E Nm Hm C. pose proof (clear_guard_false lo hi m C) as G.
-  destruct (H lo hi m V E Nm Hm C) as [[Nl Rl] [[Nh Rh] _]].
-  unfold s1_Interval_Expanded.
-  assert (M : PrimFloat.leb 0%float m = true).
-  { apply leb_true_iff; [reflexivity|exact Nm|]. rewrite rank_zero. exact Hm. }
-  rewrite M, E. unfold exp_full_guard in G. fold TWOPI. rewrite G.
-  cbn [s1_Interval_Lo s1_Interval_Hi].
-  change (go_remainder (PrimFloat.sub lo m) TWOPI) with (exp_lo lo m).
-  change (go_remainder (PrimFloat.add hi m) TWOPI) with (exp_hi hi m).
+  intros V E Nm Hm G LK.
+  destruct (expand_numeric HR lo hi m V E Nm Hm G LK) as [[Nl Rl] [[Nh Rh] _]].
+  rewrite (expanded_unfold lo hi m Nm Hm E G).
   set (l := exp_lo lo m) in *. set (h := exp_hi hi m) in *. clearbody l h.
   unfold inrange in *. pose proof rpi_pos as Pp.
   unfold norm_hi.
@@ -85,20 +319,18 @@ Proof.
   repeat split; try assumption; try reflexivity; try lra.
 Qed.
 
-Theorem s1_expanded_valid_under_H i m : valid_s1 i -> nonnan m -> 0 <= rank m -> exp_safe i m ->
+Theorem s1_expanded_valid_under_H i m : valid_s1 i -> nonnan m -> 0 <= rank m ->
+  len_ok (s1_Interval_Lo i) (s1_Interval_Hi i) m ->
   valid_s1 (s1_Interval_Expanded i m).
 Proof.
-  destruct i as [lo hi]. intros V Nm Hm S. unfold exp_safe in S. cbn [s1_Interval_Lo s1_Interval_Hi] in S.
-  assert (M : PrimFloat.leb 0%float m = true)
-    by (apply leb_true_iff; [reflexivity|exact Nm|]; rewrite rank_zero; exact Hm).
+  destruct i as [lo hi]. cbn [s1_Interval_Lo s1_Interval_Hi]. intros V Nm Hm LK.
   destruct (s1_Interval_IsEmpty (mk_s1_Interval lo hi)) eqn:E.
-  { unfold s1_Interval_Expanded. rewrite M, E. exact V. }
+  { unfold s1_Interval_Expanded. rewrite (leb0_m m Nm Hm), E. exact V. }
   destruct (exp_full_guard lo hi m) eqn:G.
-  { unfold s1_Interval_Expanded.
-    rewrite M, E. unfold exp_full_guard in G. fold TWOPI. rewrite G. apply s1_full_valid. }
-  assert (C : exp_clear_of_guard lo hi m) by (destruct S as [S|[S|S]]; [congruence|congruence|exact S]).
-  destruct (expanded_result lo hi m V E Nm Hm C) as [VL [VH [EL EH]]].
-  destruct (H lo hi m V E Nm Hm C) as [[Nl Rl] [[Nh Rh] _]].
+  { unfold s1_Interval_Expanded. rewrite (leb0_m m Nm Hm), E.
+    unfold exp_full_guard in G. fold TWOPI. rewrite G. apply s1_full_valid. }
+  destruct (expanded_result lo hi m V E Nm Hm G LK) as [VL [VH [EL EH]]].
+  destruct (expand_numeric HR lo hi m V E Nm Hm G LK) as [[Nl Rl] [[Nh Rh] _]].
   unfold valid_s1. split; [exact VL|]. split; [exact VH|].
   rewrite EL, EH. unfold norm_hi, inrange in *. pose proof rpi_pos.
   destruct (normR_cases (rank (exp_lo lo m))) as [[L1 Ln]|[L1 Ln]]; rewrite Ln;
@@ -106,43 +338,81 @@ Proof.
   split; intros; lra.
 Qed.
 
-Theorem s1_expanded_sound_under_H i m x : valid_s1 i -> nonnan m -> 0 <= rank m -> exp_safe i m ->
+Theorem s1_expanded_sound_under_H i m x : valid_s1 i -> nonnan m -> 0 <= rank m ->
+  len_ok (s1_Interval_Lo i) (s1_Interval_Hi i) m ->
   inrange x -> mem_s1 i x -> mem_s1 (s1_Interval_Expanded i m) x.
 Proof.
-  destruct i as [lo hi]. intros V Nm Hm S Hx Hmem. unfold exp_safe in S. cbn [s1_Interval_Lo s1_Interval_Hi] in S.
-  assert (M : PrimFloat.leb 0%float m = true)
-    by (apply leb_true_iff; [reflexivity|exact Nm|]; rewrite rank_zero; exact Hm).
+  destruct i as [lo hi]. cbn [s1_Interval_Lo s1_Interval_Hi]. intros V Nm Hm LK Hx Hmem.
   destruct (s1_Interval_IsEmpty (mk_s1_Interval lo hi)) eqn:E.
-  { unfold s1_Interval_Expanded. rewrite M, E. exact Hmem. }
+  { unfold s1_Interval_Expanded. rewrite (leb0_m m Nm Hm), E. exact Hmem. }
   destruct (exp_full_guard lo hi m) eqn:G.
-  { unfold s1_Interval_Expanded. rewrite M, E. unfold exp_full_guard in G. fold TWOPI. rewrite G.
+  { unfold s1_Interval_Expanded. rewrite (leb0_m m Nm Hm), E.
+    unfold exp_full_guard in G. fold TWOPI. rewrite G.
     apply (proj1 (s1_isfull_spec _ s1_full_valid) s1_full_isfull x Hx). }
-  assert (C : exp_clear_of_guard lo hi m) by (destruct S as [S|[S|S]]; [congruence|congruence|exact S]).
-  destruct (expanded_result lo hi m V E Nm Hm C) as [_ [_ [EL EH]]].
-  destruct (H lo hi m V E Nm Hm C) as [_ [_ Hall]].
+  destruct (expanded_result lo hi m V E Nm Hm G LK) as [_ [_ [EL EH]]].
+  destruct (expand_numeric HR lo hi m V E Nm Hm G LK) as [_ [_ Hall]].
   unfold mem_s1 in *. cbn [s1_Interval_Lo s1_Interval_Hi] in Hmem. rewrite EL, EH.
   apply Hall; [apply normR_range; exact Hx|exact Hmem].
 Qed.
+
+(** the shape used by C10 (Proofs/C10_Rect.v, premise C19_s1_expanded_sound), for margins <= 3 *)
+Corollary s1_expanded_sound_small_margin i m : valid_s1 i -> nonnan m -> 0 <= rank m <= 3 ->
+  valid_s1 (s1_Interval_Expanded i m) /\
+  forall x, inrange x -> mem_s1 i x -> mem_s1 (s1_Interval_Expanded i m) x.
+Proof.
+  intros V Nm [H0 H3]. split.
+  - apply s1_expanded_valid_under_H; auto. right. exact H3.
+  - intros x Hx Hm. apply s1_expanded_sound_under_H; auto. right. exact H3.
+Qed.
 End UnderH.
 
-(** * The finding: without the premise [exp_safe] the statement is false of the code as it is *)
-Lemma s1_expanded_refuted : exists i m p,
+(** * History: the guard before /repo commit 44b3e8d (2*dblEpsilon) *)
+Definition s1_Interval_Expanded_old (v_i : s1_Interval) (v_margin : PrimFloat.float) : s1_Interval :=
+  if PrimFloat.leb 0%float v_margin then
+    if s1_Interval_IsEmpty v_i then v_i else
+    if PrimFloat.leb TWOPI (PrimFloat.add (PrimFloat.add (s1_Interval_Length v_i) (PrimFloat.mul 2%float v_margin))
+                                          (PrimFloat.mul 2%float s1_dblEpsilon))
+    then s1_FullInterval
+    else let r := s1_IntervalFromEndpoints (exp_lo (s1_Interval_Lo v_i) v_margin) (exp_hi (s1_Interval_Hi v_i) v_margin) in
+         if PrimFloat.leb (s1_Interval_Lo r) NPI then set_s1_Interval_Lo r PI else r
+  else s1_Interval_Expanded v_i v_margin.
+
+Lemma s1_expanded_old_refuted : exists i m p,
   s1_Interval_IsValid i = true /\ PrimFloat.leb 0%float m = true /\
   s1_Interval_Contains i p = true /\
-  s1_Interval_IsValid (s1_Interval_Expanded i m) = true /\
-  s1_Interval_Contains (s1_Interval_Expanded i m) p = false.
+  s1_Interval_Contains (s1_Interval_Expanded_old i m) p = false.
 Proof.
   exists (mk_s1_Interval (-3)%float (0x1.0000000000001p+0)%float), (0x1.243f6a8885a2ep+0)%float, (-3)%float.
   vm_compute. repeat split; reflexivity.
 Qed.
-(** the witness sits exactly one ulp below the guard, and the result is a single point *)
-Lemma s1_expanded_refuted_shape :
-  let i := mk_s1_Interval (-3)%float (0x1.0000000000001p+0)%float in
-  let m := (0x1.243f6a8885a2ep+0)%float in
-  fbiteq (exp_guard_value (-3)%float (0x1.0000000000001p+0)%float m) (0x1.921fb54442d17p+02)%float = true /\
-  s1_Interval_eqbits (s1_Interval_Expanded i m)
-    (mk_s1_Interval (0x1.121fb54442d18p+1)%float (0x1.121fb54442d18p+1)%float) = true.
-Proof. vm_compute. split; reflexivity. Qed.
-(** the premise is satisfiable *)
-Example ex_exp_safe : exp_safe (mk_s1_Interval (-3)%float 1%float) 1%float.
-Proof. right. right. vm_compute. reflexivity. Qed.
+(** the same input on the repaired code: the full circle *)
+Lemma s1_expanded_old_witness_fixed :
+  s1_Interval_IsFull (s1_Interval_Expanded (mk_s1_Interval (-3)%float (0x1.0000000000001p+0)%float)
+                                           (0x1.243f6a8885a2ep+0)%float) = true.
+Proof. vm_compute. reflexivity. Qed.
+(** the two definitions differ only in the guard constant *)
+Lemma s1_expanded_old_same_outside_guard i m :
+  PrimFloat.leb 0%float m = true -> s1_Interval_IsEmpty i = false ->
+  exp_full_guard (s1_Interval_Lo i) (s1_Interval_Hi i) m = false ->
+  PrimFloat.leb TWOPI (PrimFloat.add (PrimFloat.add (s1_Interval_Length i) (PrimFloat.mul 2%float m))
+                                     (PrimFloat.mul 2%float s1_dblEpsilon)) = false ->
+  s1_Interval_Expanded_old i m = s1_Interval_Expanded i m.
+Proof.
+  destruct i as [lo hi]. cbn [s1_Interval_Lo s1_Interval_Hi]. intros M E G G'.
+  unfold s1_Interval_Expanded_old, s1_Interval_Expanded. rewrite M, E, G'.
+  unfold exp_full_guard in G. fold TWOPI. rewrite G. reflexivity.
+Qed.
+
+(** * FINDING (present after 44b3e8d): without [len_ok] the statement is false of the code as it is *)
+Lemma s1_expanded_refuted : exists i m p,
+  s1_Interval_IsValid i = true /\ s1_Interval_IsEmpty i = false /\ PrimFloat.leb 0%float m = true /\
+  s1_Interval_Contains i p = true /\
+  PrimFloat.ltb (s1_Interval_Length i) 0%float = true /\
+  s1_Interval_IsValid (s1_Interval_Expanded i m) = true /\
+  s1_Interval_Contains (s1_Interval_Expanded i m) p = false.
+Proof.
+  exists (mk_s1_Interval PI (-0x1.921fb54442d17p+1)%float), (0x1.999999999999ap+1)%float, PI.
+  vm_compute. repeat split; reflexivity.
+Qed.
+Example ex_len_ok : len_ok (-3)%float 1%float infinity.
+Proof. left. vm_compute. reflexivity. Qed.
